@@ -179,9 +179,97 @@ func history(g *hx.Gen, steps int) {
 			}
 		}
 	}
+	// a transaction with 300 outputs (output indexes need both bytes of the stored uint16):
+	// its outputs k and k+256 are spent in different blocks and re-spends are attempted
+	var big interfaces.Transaction
+	var bigOwner int
+	bigSpent := map[int]bool{}
+	bigCoin := func(i int) regnet.Coin {
+		return regnet.Coin{ID: regnet.ID(big.Hash()), Idx: i, Addr: bigOwner, Value: int64(big.Outputs()[i].Value)}
+	}
 	for s := 0; s < steps; s++ {
 		c := r.Intn(100)
+		if s == 6 && big == nil {
+			if co := pickCoin(active); co != nil && co.Value > 400000 {
+				bigOwner = 1 + r.Intn(4)
+				outs := make([]regnet.Out, 0, 301)
+				for i := 0; i < 300; i++ {
+					outs = append(outs, regnet.Out{To: bigOwner, Value: 1000})
+				}
+				outs = append(outs, regnet.Out{To: co.Addr, Value: common.Fixed64(co.Value - 300*1000 - 500)})
+				big = raw(co.Addr, []regnet.Coin{*co}, outs)
+				b := h.Block(active, []interfaces.Transaction{big})
+				br := active
+				if strings.HasPrefix(deliver(active, b), "main") {
+					noteSpent(b, br)
+				} else {
+					big = nil
+				}
+				h.Observe(true, 6)
+				continue
+			}
+		}
+		if big != nil && c < 22 && sim.N.TxByID(regnet.ID(big.Hash())) != nil {
+			onChain := false
+			for _, b := range active.Blocks {
+				for _, tx := range b.Transactions {
+					if tx.Hash() == big.Hash() {
+						onChain = true
+					}
+				}
+			}
+			if onChain {
+				k := r.Intn(44)
+				var ins []regnet.Coin
+				switch r.Intn(4) {
+				case 0: // k
+					ins = []regnet.Coin{bigCoin(k)}
+				case 1: // k+256
+					ins = []regnet.Coin{bigCoin(k + 256)}
+				case 2: // both in one transaction
+					ins = []regnet.Coin{bigCoin(k), bigCoin(k + 256)}
+				default: // an index already spent, if any (re-spend attempt)
+					for i := range bigSpent {
+						ins = []regnet.Coin{bigCoin(i)}
+						break
+					}
+					if ins == nil {
+						ins = []regnet.Coin{bigCoin(k)}
+					}
+				}
+				var total int64
+				for _, in := range ins {
+					total += in.Value
+				}
+				tx := raw(bigOwner, ins, []regnet.Out{{To: r.Intn(5), Value: common.Fixed64(total - 300)}})
+				if r.Chance(30) {
+					submit(tx)
+				} else {
+					br := active
+					b := h.Block(active, []interfaces.Transaction{tx})
+					if strings.HasPrefix(deliver(active, b), "main") {
+						noteSpent(b, br)
+						for _, in := range ins {
+							bigSpent[in.Idx] = true
+						}
+					}
+				}
+				h.Watch = append(h.Watch, regnet.ID(big.Hash()))
+				h.Observe(true, 6)
+				continue
+			}
+		}
 		switch {
+		case c >= 96 && len(spent) > 0: // two inputs: the first unspent, the second already spent on the active chain
+			if co := pickCoin(active); co != nil {
+				sp := spent[r.Intn(len(spent))]
+				tx := raw(co.Addr, []regnet.Coin{*co, sp}, []regnet.Out{{To: r.Intn(5), Value: common.Fixed64(co.Value + sp.Value - 400)}})
+				if r.Bool() {
+					submit(tx)
+				} else {
+					deliver(active, h.Block(active, []interfaces.Transaction{tx}))
+				}
+			}
 		case c < 34 || len(active.Blocks) < 4: // honest block, sometimes carrying the pool's transactions
 			var b *types.Block
 			if len(pooled) > 0 && r.Chance(60) {
@@ -234,7 +322,11 @@ func history(g *hx.Gen, steps int) {
 			if co := pickCoin(active); co != nil {
 				t1 := raw(co.Addr, []regnet.Coin{*co}, []regnet.Out{{To: 1, Value: common.Fixed64(co.Value - 300)}})
 				t2 := raw(co.Addr, []regnet.Coin{*co}, []regnet.Out{{To: 2, Value: common.Fixed64(co.Value - 400)}})
-				deliver(active, h.Block(active, []interfaces.Transaction{t1, t2}))
+				pair := []interfaces.Transaction{t1, t2}
+				if r.Bool() {
+					pair = []interfaces.Transaction{t2, t1}
+				}
+				deliver(active, h.Block(active, pair))
 			}
 		case c < 74: // one transaction listing the same input twice
 			if co := pickCoin(active); co != nil {
@@ -248,7 +340,11 @@ func history(g *hx.Gen, steps int) {
 				_ = b1
 				c2 := regnet.Coin{ID: regnet.ID(t1.Hash()), Idx: 0, Addr: 3, Value: co.Value - 300}
 				t2 := raw(3, []regnet.Coin{c2}, []regnet.Out{{To: 4, Value: common.Fixed64(co.Value - 700)}})
-				deliver(active, h.Block(active, []interfaces.Transaction{t1, t2}))
+				pair := []interfaces.Transaction{t1, t2}
+				if r.Bool() {
+					pair = []interfaces.Transaction{t2, t1}
+				}
+				deliver(active, h.Block(active, pair))
 			}
 		case c < 82: // creates value: outputs exceed inputs; or fee below the minimum
 			if co := pickCoin(active); co != nil {
